@@ -467,6 +467,30 @@ def regtable_task():
                     res.oblig(ok)
                     if not ok and len(bad) < 40:
                         bad.append(('%s (compress=%s)' % ((form % text).replace('\n', ' / '), c), v, str(base), str(out)))
+    # instruction mnemonics in upper / mixed case mean the same as in lower case, in every operand syntax
+    # (directive names are left out: `DB 5` ends in a raw KeyError, which no property covers - see DESIGN 9.5)
+    lines = ['addi x5, x6, 7', 'lw x5, 8(x6)', 'lw x5, x6, 8', 'lhu x5, 6(9)', 'lbu x7, 1(x8)', 'sw x5, 8(x6)', 'sb x5, x6, 1', 'jalr x1, 4(x5)', 'jalr x5',
+             'beq x5, x6, 8', 'jal x1, 16', 'lui x5, 0x12', 'li x5, 100000', 'mv x8, x9', 'ret', 'c.lw x8, 4(x9)', 'c.addi x9, 3', 'amoadd.w x5 x6 x7 1 0',
+             'csrrw x5, x6, 0x305', 'fence', 'BASE = x6\nlw x5, 8(BASE)', 'BASE = 6\nlhu x5, 2(BASE)']
+    for text in lines:
+        first, rest = text.rsplit('\n', 1) if '\n' in text else ('', text)
+        mn, _, ops = rest.partition(' ')
+        for c in (False, True):
+            try:
+                base = bytes(real.assemble(text, compress=c))
+            except Exception as e:
+                base = repr(e)[:80]
+            for variant in (mn.upper(), mn.capitalize()):
+                src = (first + '\n' if first else '') + variant + (' ' + ops if ops else '')
+                try:
+                    out = bytes(real.assemble(src, compress=c))
+                except Exception as e:
+                    out = repr(e)[:80]
+                nnum += 1
+                ok = out == base
+                res.oblig(ok)
+                if not ok and len(bad) < 40:
+                    bad.append(('%s (compress=%s)' % (src.replace('\n', ' / '), c), 0, str(base), str(out)))
     # expressions written directly as operands: every documented operator, compared with the literal value
     exprs = {'100 // 8': 12, '7 % 4': 3, '1 << 4': 16, '(2 + 3) * 4': 20, '0x10 | 3': 19, '~0 & 0xff': 255, '-(-5)': 5, '0x7f ^ 0x0f': 112,
              '1000 >> 3': 125, '3 - 10': -7, '2 * 3 + 4 * 5': 26, '2 * (3 + 4) * 5': 70, '100 // 8 // 2': 6, '-7 // 2': -4, '-7 % 4': 1,
